@@ -202,6 +202,10 @@ func battery() []request {
 		{"match score:none", mk(mq, []string{"_id"}, func(r *bleve.SearchRequest) { r.Score = "none" })},
 		{"conj tags score:none", mk(bleve.NewConjunctionQuery(tq("tag", "t1"), tq("tag", "u0")), []string{"_id"}, func(r *bleve.SearchRequest) { r.Score = "none" })},
 		{"disj tags score:none", mk(bleve.NewDisjunctionQuery(tq("tag", "t2"), tq("tag", "u1")), []string{"_id"}, func(r *bleve.SearchRequest) { r.Score = "none" })},
+		// terms that sit in exactly one document (merged segments encode them specially)
+		{"conj 1-hit c score:none", mk(bleve.NewConjunctionQuery(tq("title", "c"), tq("tag", "u1")), []string{"_id"}, func(r *bleve.SearchRequest) { r.Score = "none" })},
+		{"conj 1-hit e score:none", mk(bleve.NewConjunctionQuery(tq("title", "e"), tq("tag", "u1")), []string{"_id"}, func(r *bleve.SearchRequest) { r.Score = "none" })},
+		{"disj 1-hit score:none", mk(bleve.NewDisjunctionQuery(tq("title", "d"), tq("title", "f"), tq("tag", "t0")), []string{"_id"}, func(r *bleve.SearchRequest) { r.Score = "none" })},
 	}
 }
 
@@ -504,7 +508,7 @@ func layouts(c *core.Ctx) []layout {
 }
 
 func run(c *core.Ctx) error {
-	c.SetRule("one evaluation = one request of the battery (11 requests: match, phrase+highlight+locations, conj(term, bool(must, should)), bool must/should/must-not, disjunction min 2, numeric range + numeric sort + fields, match_all + terms/numeric facets + paging, prefix, score:none) sent to one layout of one TLC-generated history; " +
+	c.SetRule("one evaluation = one request of the battery (14 requests: match, phrase+highlight+locations, conj(term, bool(must, should)), bool must/should/must-not, disjunction min 2, numeric range + numeric sort + fields, match_all + terms/numeric facets + paging, prefix, score:none) sent to one layout of one TLC-generated history; " +
 		"distinct_nontrivial = distinct (history, request) whose answer has at least one hit and that was compared across >= 2 layouts")
 	c.Assume("sorts are made total by appending _id (natural-order tie-breaking legitimately depends on layout)")
 	mcfg := "Index_mc_quick.cfg"
